@@ -103,3 +103,122 @@ func eqZScalars(a, b *ZScalars) bool {
 }
 
 func eqZInner(a, b *ZInner) bool { return vAnd(a.N == b.N, a.S == b.S) }
+
+func eqZInnerP(a, b *ZInner) bool {
+	if a == nil || b == nil {
+		return a == nil && b == nil
+	}
+	return eqZInner(a, b)
+}
+
+func eqZOuter(a, b *ZOuter) bool {
+	ok := vAnd(a.A == b.A, a.Z == b.Z)
+	ok = vAnd(ok, eqZInner(&a.In, &b.In))
+	if (a.P == nil) != (b.P == nil) {
+		return false
+	}
+	if a.P != nil {
+		ok = vAnd(ok, eqZInner(a.P, b.P))
+	}
+	return ok
+}
+
+func eqStrings(a, b []string) bool {
+	if len(a) != len(b) {
+		return false
+	}
+	ok := true
+	for i := range a {
+		ok = vAnd(ok, a[i] == b[i])
+	}
+	return ok
+}
+
+func eqInt32s(a, b []int32) bool {
+	if len(a) != len(b) {
+		return false
+	}
+	ok := true
+	for i := range a {
+		ok = vAnd(ok, a[i] == b[i])
+	}
+	return ok
+}
+
+func eqInt64s(a, b []int64) bool {
+	if len(a) != len(b) {
+		return false
+	}
+	ok := true
+	for i := range a {
+		ok = vAnd(ok, a[i] == b[i])
+	}
+	return ok
+}
+
+func eqF64s(a, b []float64) bool {
+	if len(a) != len(b) {
+		return false
+	}
+	ok := true
+	for i := range a {
+		ok = vAnd(ok, eqF64(a[i], b[i]))
+	}
+	return ok
+}
+
+func eqInnerPs(a, b []*ZInner) bool {
+	if len(a) != len(b) {
+		return false
+	}
+	ok := true
+	for i := range a {
+		if (a[i] == nil) != (b[i] == nil) {
+			return false
+		}
+		if a[i] != nil {
+			ok = vAnd(ok, eqZInner(a[i], b[i]))
+		}
+	}
+	return ok
+}
+
+func eqZLists(a, b *ZLists) bool {
+	ok := eqStrings(a.Ss, b.Ss)
+	ok = vAnd(ok, eqInt32s(a.Is, b.Is))
+	ok = vAnd(ok, eqInt64s(a.Ls, b.Ls))
+	ok = vAnd(ok, eqF64s(a.Fs, b.Fs))
+	ok = vAnd(ok, eqInnerPs(a.Ps, b.Ps))
+	return ok
+}
+
+// eqMapSI: same entries (nil and empty identified).
+func eqMapSI(a, b map[string]int32) bool {
+	if len(a) != len(b) {
+		return false
+	}
+	ok := true
+	for k, v := range a {
+		w, has := b[k]
+		if !has {
+			return false
+		}
+		ok = vAnd(ok, v == w)
+	}
+	return ok
+}
+
+func eqMapIS(a, b map[int32]string) bool {
+	if len(a) != len(b) {
+		return false
+	}
+	ok := true
+	for k, v := range a {
+		w, has := b[k]
+		if !has {
+			return false
+		}
+		ok = vAnd(ok, v == w)
+	}
+	return ok
+}
